@@ -373,6 +373,75 @@ func runC16(r *Run, p *Prog) {
 									closureWrites = true
 								}
 							}
+							// joins: a receive (plain or as the chosen case of a select) from a channel on which the goroutine
+							// sends or which it closes, provided the goroutine does not write the variable after that signal
+							joinCh := map[*ssa.MakeChan]bool{}
+							for _, cb := range cl.Blocks {
+								for _, ci := range cb.Instrs {
+									var ch ssa.Value
+									switch x := ci.(type) {
+									case *ssa.Send:
+										ch = x.Chan
+									case *ssa.Call:
+										if bi, isB := x.Call.Value.(*ssa.Builtin); isB && bi.Name() == "close" && len(x.Call.Args) == 1 {
+											ch = x.Call.Args[0]
+										}
+									}
+									if ch == nil {
+										continue
+									}
+									mk := chanOrigin(T, ch)
+									if mk == nil {
+										continue
+									}
+									late, _ := reachInstr(cl, ci, func(i ssa.Instruction) bool {
+										st, ok := i.(*ssa.Store)
+										return ok && st.Addr == ssa.Value(fv)
+									}, nil, nil)
+									if !late {
+										joinCh[mk] = true
+									}
+								}
+							}
+							isJoin := func(i ssa.Instruction) bool {
+								if op != nil && op.isJoinRecv(T, i) {
+									return true
+								}
+								u, ok := i.(*ssa.UnOp)
+								return ok && u.Op == token.ARROW && joinCh[chanOrigin(T, u.X)]
+							}
+							joinEdge := func(from, to *ssa.BasicBlock) bool {
+								if op != nil && op.Select != nil {
+									if k, ok := selectIndexEdge(from, op.Select); ok && k == op.ResIdx && to == from.Succs[0] {
+										return true
+									}
+								}
+								if len(from.Instrs) == 0 || len(from.Succs) != 2 || to != from.Succs[0] {
+									return false
+								}
+								iff, ok := from.Instrs[len(from.Instrs)-1].(*ssa.If)
+								if !ok {
+									return false
+								}
+								bo, ok := iff.Cond.(*ssa.BinOp)
+								if !ok {
+									return false
+								}
+								ex, ok := bo.X.(*ssa.Extract)
+								if !ok {
+									return false
+								}
+								sel, ok := ex.Tuple.(*ssa.Select)
+								if !ok {
+									return false
+								}
+								k, ok := selectIndexEdge(from, sel)
+								if !ok || k < 0 || k >= len(sel.States) {
+									return false
+								}
+								stt := sel.States[k]
+								return stt.Dir == types.RecvOnly && joinCh[chanOrigin(T, stt.Chan)]
+							}
 							// parent accesses reachable after the go
 							bad := ""
 							var wit []ssa.Instruction
@@ -389,16 +458,7 @@ func runC16(r *Run, p *Prog) {
 									continue
 								}
 								target := ref
-								reach, w := reachInstr(f, g, func(i ssa.Instruction) bool { return i == target },
-									func(i ssa.Instruction) bool { return op != nil && op.isJoinRecv(T, i) },
-									func(from, to *ssa.BasicBlock) bool {
-										if op != nil && op.Select != nil {
-											if k, ok := selectIndexEdge(from, op.Select); ok && k == op.ResIdx && to == from.Succs[0] {
-												return true
-											}
-										}
-										return false
-									})
+								reach, w := reachInstr(f, g, func(i ssa.Instruction) bool { return i == target }, isJoin, joinEdge)
 								if reach {
 									bad = ifs(isStore, "written", "read") + " by the parent after the go statement without an intervening join"
 									wit = w
